@@ -10,19 +10,21 @@ import (
 // Opts steers generation. Runnable restricts the configuration to the fixture universe fx
 // with type-compatible arguments, so that the generated container can be compiled and run.
 type Opts struct {
-	Runnable   bool
-	MaxParams  int
-	MaxSvcs    int
-	MaxDecs    int
-	NoTodo     bool // no todo params/services
-	NoEnv      bool
-	NoFn       bool
-	NoScopes   bool // every service has unset scope
-	LegalOnly  bool // never generate a shared service depending on a contextual one
-	OnlyPtr    bool // only pointer-typed services (identity is observable)
-	FakeWorld  bool // (not Runnable) add imports/aliases/symbols outside fx, prefix-related aliases
-	SimpleVals bool // params restricted to int/str (exact value model)
-	Plain      bool // services: constructor arguments only (no fields/calls/tags/decorators/!value/!tagged)
+	Runnable     bool
+	MaxParams    int
+	MaxSvcs      int
+	MaxDecs      int
+	NoTodo       bool // no todo params/services
+	NoEnv        bool
+	NoFn         bool
+	NoScopes     bool // every service has unset scope
+	LegalOnly    bool // never generate a shared service depending on a contextual one
+	OnlyPtr      bool // only pointer-typed services (identity is observable)
+	FakeWorld    bool // (not Runnable) add imports/aliases/symbols outside fx, prefix-related aliases
+	SimpleVals   bool // params restricted to int/str (exact value model)
+	Plain        bool // services: constructor arguments only (no fields/calls/tags/decorators/!value/!tagged)
+	TodoScoped   bool // todo services may declare a scope too
+	NoTodoParams bool // no todo parameters (todo services still allowed unless NoTodo)
 }
 
 // the pools overlap on purpose (a parameter, a tag and a service may share a name; names may
@@ -203,7 +205,7 @@ func (g *genState) paramValue(i int, name string) Arg {
 	if !g.o.NoEnv {
 		kinds = append(kinds, "env", "envInt")
 	}
-	if !g.o.NoTodo {
+	if !g.o.NoTodo && !g.o.NoTodoParams {
 		kinds = append(kinds, "todo")
 	}
 	if g.fnName != "" {
@@ -327,6 +329,9 @@ func (g *genState) service(name string, i int) Svc {
 	s := Svc{Name: name}
 	if !g.o.NoTodo && src.Chance("stodo", 1, 8) {
 		s.Todo = true
+		if g.o.TodoScoped && !g.o.NoScopes {
+			s.Scope = choice.Pick(src, "stodoscope", []string{"", "shared", "contextual", "contextual", "non_shared"})
+		}
 		return s
 	}
 	kinds := []string{"ctor", "ctor", "ctor", "ctorE", "value"}
@@ -561,4 +566,6 @@ func MakeScopeLegal(c *Cfg) {
 	}
 }
 
-func (c *Cfg) String() string { return fmt.Sprintf("%d params, %d services, %d decorators", len(c.Params), len(c.Services), len(c.Decorators)) }
+func (c *Cfg) String() string {
+	return fmt.Sprintf("%d params, %d services, %d decorators", len(c.Params), len(c.Services), len(c.Decorators))
+}
